@@ -32,6 +32,19 @@ class NLRI(object):
         raise NotImplementedError
 
     @staticmethod
+    def clear_trailing_bits(prefix_octets, prefix_bit_len):
+        """
+        RFC 4271 4.3 / RFC 4760 5: a prefix is followed by enough trailing bits
+        to reach an octet boundary and their value is irrelevant
+        :param prefix_octets: the octets that hold the prefix
+        :param prefix_bit_len: prefix length in bits
+        """
+        octets = bytearray(prefix_octets)
+        if prefix_bit_len % 8 and len(octets) > prefix_bit_len // 8:
+            octets[prefix_bit_len // 8] &= (0xff << (8 - prefix_bit_len % 8)) & 0xff
+        return bytes(octets)
+
+    @staticmethod
     def construct_prefix_v4(masklen, prefix_str):
         ip_hex = struct.pack('!I', netaddr.IPNetwork(prefix_str).value)
         if 16 < masklen <= 24:
